@@ -65,6 +65,8 @@ structure Dn where
   name : Name
   nonce : Nat
   exp : Nat
+  born : Nat := 0     -- ghost: insertion time
+  rank : Nat := 0     -- ghost: number of records in the list when this one was inserted
 deriving DecidableEq, Repr
 
 inductive Send where
@@ -99,7 +101,7 @@ def setEntry (pit : List PitEntry) (e : PitEntry) : List PitEntry :=
 def dnlHas (d : List Dn) (n : Name) (nonce : Nat) : Bool := d.any (fun x => decide (x.name = n ∧ x.nonce = nonce))
 
 def dnlInsert (s : St) (n : Name) (nonce : Nat) : St :=
-  if dnlHas s.dnl n nonce then s else { s with dnl := s.dnl ++ [⟨n, nonce, s.now + s.cfg.dnlLife⟩] }
+  if dnlHas s.dnl n nonce then s else { s with dnl := s.dnl ++ [⟨n, nonce, s.now + s.cfg.dnlLife, s.now, s.dnl.length⟩] }
 
 /-- `RemoveExpiredEntries` at the tick armed for `dnlNext` -/
 def fireDnl (s : St) : St :=
